@@ -533,7 +533,7 @@ func c17R4(p *core.Program, r *core.Report, rels ...string) {
 					if rv == nil || iter[rv] {
 						continue
 					}
-					if !(rv.Pos() < loop.Pos() || rv.Pos() >= loop.End()) {
+					if core.DeclaredIn(info, loop, rv) {
 						continue
 					}
 					_ = isField
